@@ -82,10 +82,13 @@ LARGE = {"logaddexp": [(700.0, 712.0), (-800.0, -780.0), (-4.0, 4.0)], "logaddex
 def _mk_binary(name, dom, cplx):
     def draw(c):
         res, sa, sb = _bshapes(c)
-        if name in LARGE and c.chance(1, 4):
-            d2 = LARGE[name][c.int(0, len(LARGE[name]) - 1)]
-            return Call("b:" + name, lambda ns, x, y: getattr(ns, name)(x, y), [sa, sb], dom=d2, cplx=False,
-                        desc=[name, list(sa), list(sb), "large", list(d2)], feats=dict(_bfeats(name, sa, sb), scale="large"))
+        if name in LARGE and c.chance(1, 3):
+            # the two operands on the same large scale, or on far-apart scales (saturation: the smaller one no longer matters)
+            hi, lo, mid = LARGE[name]
+            d2, d3 = [(hi, hi), (lo, lo), (lo, mid), (mid, lo), (lo, hi), (hi, lo)][c.int(0, 5)]
+            return Call("b:" + name, lambda ns, x, y: getattr(ns, name)(x, y), [sa, sb], doms=[d2, d3], cplx=False,
+                        desc=[name, list(sa), list(sb), "large", list(d2), list(d3)],
+                        feats=dict(_bfeats(name, sa, sb), scale="large", saturated=d2 != d3))
         if name == "power" and c.chance(1, 4):
             # a negative real base: only meaningful with a complex exponent (NumPy then promotes and the value is finite)
             return Call("b:" + name, lambda ns, x, y: getattr(ns, name)(x, y), [sa, sb], doms=[(-2.5, -0.4), (0.4, 2.5)], cplx=True, cdom=(-2.0, 2.0),
